@@ -26,7 +26,7 @@ var c15Values = map[string]any{
 // c15Variants: other well-typed values a kind-determining key may carry - present but empty, null,
 // or of another shape. Which KEYS are present decides the kind, never what they hold.
 var c15Variants = map[string][]any{
-	"plugins":  {[]any{}, obj{}, nil, obj{"p#v1": obj{"a": 1}}},
+	"plugins":  {[]any{}, obj{}, nil, obj{"p#v1": obj{"a": 1}}, []any{orderedJSON{{"p#v1", nil}, {"q#v2", obj{"a": 1}}}, "r#v3"}}, // (the last: one list item naming two plugins)
 	"command":  {"", nil},
 	"commands": {[]any{}, nil, "single"},
 	"wait":     {"w", "", true},
@@ -102,6 +102,7 @@ func runC15(args []string) {
 			idx = int(v)
 		}
 		var step any
+		malformed := false
 		if c["form"] == "scalar" {
 			step = c["s"]
 		} else {
@@ -109,9 +110,24 @@ func runC15(args []string) {
 			keys := strs(c["keys"])
 			pairs := [][2]any{}
 			rot := idx % (len(keys) + 1)
+			// every fifth row (scattered) is MALFORMED: the keys of the command family, and a group's `steps`, hold values
+			// their fields cannot take. Such a step is the kind its keys say or - reported - an unknown step; never
+			// the kind of a LATER family whose key also happens to be there
+			malformed = ((uint64(idx)*2654435761)>>12)%5 == 0 && nest == 0
+			bad := map[string]any{"command": obj{"not": "a string"}, "commands": obj{"not": "a list"}, "plugins": 42}
 			for i := range keys {
 				k := keys[(i+rot)%len(keys)]
-				pairs = append(pairs, [2]any{k, c15Value(k, idx)})
+				v := c15Value(k, idx)
+				if b, isBad := bad[k]; malformed && isBad {
+					v = b
+				}
+				pairs = append(pairs, [2]any{k, v})
+				if malformed && k == "group" && c["extra"] != "steps" {
+					pairs = append(pairs, [2]any{"steps", "not a list"})
+				}
+			}
+			if malformed && idx%2 == 0 {
+				pairs = append(pairs, [2]any{"env", "not a mapping"}) // (only a command step has an env to get wrong)
 			}
 			if t, _ := c["type"].(string); t != "<absent>" {
 				pairs = append(pairs, [2]any{"type", t})
@@ -172,7 +188,10 @@ func runC15(args []string) {
 		// every fifth map-shaped row is not parsed from text but handed to the step decoder as an ordered map that has
 		// been EDITED through its API: a key of the command family was set first and deleted again. What decides
 		// is what the map holds, not what its storage remembers.
-		edited := idx%5 == 0 && nest == 0 && npre == 0 && c["form"] != "scalar"
+		if malformed {
+			ev["malformed"] = true
+		}
+		edited := idx%5 == 0 && nest == 0 && npre == 0 && c["form"] != "scalar" && !malformed
 		if sm, ok := step.(orderedJSON); ok && edited {
 			for _, p := range sm {
 				if p[0] == "command" || p[0] == "commands" || p[0] == "plugins" {
